@@ -47,12 +47,12 @@ Theorem C19_capped_loops_bounded :
      pen_passes mpr_pen_cap_is_ge mpr_pen_max_iterations < fuel ->
      exists c, pen_loop fuel mpr_pen_cap_is_ge mpr_pen_max_iterations tol 0 0 = Some c /\ c <= f_mpr_pen_info) /\
   (* gjk_nesterov_accelerated (generic support functions: 2 evaluations per pass) *)
-  (forall fuel ray_short omega gap cv inside acc,
+  (forall fuel ray_short omega gap cv dup inside acc,
      nesterov_max_interations + 1 < fuel ->
-     exists c, nesterov_loop fuel nesterov_max_interations ray_short omega gap cv inside 0 acc 0 0 = Some c /\ c <= f_nesterov) /\
-  (forall fuel ray_short omega gap cv inside acc,
+     exists c, nesterov_loop fuel nesterov_max_interations ray_short omega gap cv dup inside 0 acc 0 0 = Some c /\ c <= f_nesterov) /\
+  (forall fuel ray_short omega gap cv dup inside acc,
      nesterov_prim_max_interations + 1 < fuel ->
-     exists c, nesterov_loop fuel nesterov_prim_max_interations ray_short omega gap cv inside 0 acc 0 0 = Some c /\ c <= f_nesterov_prim).
+     exists c, nesterov_loop fuel nesterov_prim_max_interations ray_short omega gap cv dup inside 0 acc 0 0 = Some c /\ c <= f_nesterov_prim).
 Proof.
   repeat split.
   - intros. apply libccd_bound.
@@ -69,15 +69,15 @@ Proof.
     destruct (pen_loop fuel mpr_pen_cap_is_ge mpr_pen_max_iterations tol 0 0) as [c|] eqn:E.
     + exists c. split; auto. eapply pen_bound; eauto.
     + exfalso. refine (pen_terminates mpr_pen_cap_is_ge mpr_pen_max_iterations tol fuel 0 0 _ E). lia.
-  - intros fuel rs om gp cv ins acc Hf.
-    destruct (nesterov_loop fuel nesterov_max_interations rs om gp cv ins 0 acc 0 0) as [c|] eqn:E.
+  - intros fuel rs om gp cv dp ins acc Hf.
+    destruct (nesterov_loop fuel nesterov_max_interations rs om gp cv dp ins 0 acc 0 0) as [c|] eqn:E.
     + exists c. split; auto. eapply nesterov_bound; eauto.
-    + exfalso. refine (nesterov_terminates nesterov_max_interations rs om gp cv ins fuel 0 acc 0 0 _ E).
+    + exfalso. refine (nesterov_terminates nesterov_max_interations rs om gp cv dp ins fuel 0 acc 0 0 _ E).
       unfold b2n. destruct acc; lia.
-  - intros fuel rs om gp cv ins acc Hf.
-    destruct (nesterov_loop fuel nesterov_prim_max_interations rs om gp cv ins 0 acc 0 0) as [c|] eqn:E.
+  - intros fuel rs om gp cv dp ins acc Hf.
+    destruct (nesterov_loop fuel nesterov_prim_max_interations rs om gp cv dp ins 0 acc 0 0) as [c|] eqn:E.
     + exists c. split; auto. eapply nesterov_bound; eauto.
-    + exfalso. refine (nesterov_terminates nesterov_prim_max_interations rs om gp cv ins fuel 0 acc 0 0 _ E).
+    + exfalso. refine (nesterov_terminates nesterov_prim_max_interations rs om gp cv dp ins fuel 0 acc 0 0 _ E).
       unfold b2n. destruct acc; lia.
 Qed.
 
@@ -134,7 +134,7 @@ Example C19_nonvacuous :
                  (fun _ => false) (fun _ => false) (fun _ => false) = Some f_mpr_discover /\
   pen_loop 1000 mpr_pen_cap_is_ge mpr_pen_max_iterations (fun _ => false) 0 0 = Some f_mpr_pen_info /\
   nesterov_loop 1000 nesterov_max_interations (fun _ => false) (fun _ => false) (fun p => Nat.eqb p 5) (fun _ => false)
-                (fun _ => false) 0 true 0 0 = Some f_nesterov.
+                (fun _ => false) (fun _ => false) 0 true 0 0 = Some f_nesterov.
 Proof. vm_compute. repeat split. Qed.
 
 Print Assumptions C19_capped_loops_bounded.
